@@ -94,6 +94,14 @@ def run(outcome, tier, seed):
             for to in targets:
                 cases.append(cli.Case(["-t", to, name]))
                 tags.append("empty")
+        # names that are not UTF-8 keep their extension; a byte order mark is part of the bytes the library is given
+        for name in ("caf\udce9.json", "\udcff\udcfe.YAML", "y\udce9.json", "bom.json", "bom.yaml", "bom.toml", "bomstream"):
+            for to in (targets if tier == "thorough" else ["json", "yaml"]):
+                cases.append(cli.Case(["-t", to, name]))
+                tags.append("edge-name")
+        cases.append(cli.Case(["-f", "json", "-t", "json", "bom.yaml"]))
+        cases.append(cli.Case(["-f", "json", "-t", "json", "bomstream"]))
+        tags += ["edge-name"] * 2
         # a recognised extension on one input must not colour the next one
         for first, second in (("a.json", "c.toml"), ("c.toml", "noext"), ("a.json", "-"), ("b.yaml", "d.msgpack"), ("c.toml", "both.txt"),
                               ("x.Yml", "a.json"), ("a.json", "misleading.toml")):
